@@ -272,17 +272,24 @@ class LazyEvaluatedKernelTensor(LinearOperator):
         with torch.no_grad(), settings.lazily_evaluate_kernels(False):
             sub_x1s = torch.split(x1, split_size, dim=-2)
             res = []
-            for sub_x1 in sub_x1s:
-                sub_kernel_matrix = to_linear_operator(
-                    self.kernel(
-                        sub_x1,
-                        x2,
-                        diag=False,
-                        last_dim_is_batch=self.last_dim_is_batch,
-                        **self.params,
+            # x1 and x2 already hold the active dimensions only (selected by Kernel.__call__ when this tensor was
+            # created): as in evaluate_kernel, the kernel must not select them a second time
+            temp_active_dims = self.kernel.active_dims
+            self.kernel.active_dims = None
+            try:
+                for sub_x1 in sub_x1s:
+                    sub_kernel_matrix = to_linear_operator(
+                        self.kernel(
+                            sub_x1,
+                            x2,
+                            diag=False,
+                            last_dim_is_batch=self.last_dim_is_batch,
+                            **self.params,
+                        )
                     )
-                )
-                res.append(sub_kernel_matrix._matmul(rhs))
+                    res.append(sub_kernel_matrix._matmul(rhs))
+            finally:
+                self.kernel.active_dims = temp_active_dims
 
             res = torch.cat(res, dim=-2)
             return res
